@@ -59,6 +59,32 @@ def check_mask_builder(ctx, rule, m):
         tail = any(t == f"mask_.append({counter})" for t in after)
         okmask = okmask and tail
         why = ""
+    # the edges appended are, in order: bins[0,0]; per bin its right edge, then (gap only) the next bin's left edge; bins[-1,1]
+    okseq = False
+    whyseq = "loop not found"
+    if loop:
+        seqs = set()
+        for p in function_paths(fake):
+            seqs.add(tuple(U(c.args[0]) for s in p if s[0] == "stmt" for c in calls_in(s[1]) if U(c.func).endswith("edges_.append") and c.args))
+        want = {(f"bins[{iv}, 1]",), (f"bins[{iv}, 1]", f"bins[{iv} + 1, 0]")}
+        outer = [U(c.args[0]) for st in ast.walk(tm.node) if isinstance(st, ast.Expr) and not any(st is x for x in ast.walk(lp))
+                 for c in calls_in(st) if U(c.func).endswith("edges_.append") and c.args]
+        rng = U(lp.iter)
+        okseq = seqs == want and outer == ["bins[0, 0]", "bins[-1, 1]"] and rng == "range(bins.shape[0] - 1)"
+        whyseq = f"per-bin edge sequences {sorted(seqs)}, outside the loop {outer}, loop over {rng}"
+    ctx.check(okseq, rule, "to_numpy_bins_with_mask:edge-sequence",
+              "first left edge; per bin its right edge and, at a gap, the next left edge; last right edge; loop over all bins but the last",
+              "the edge array is not built from the bins' own edges in order: " + whyseq, tm.where)
+    got1 = {}
+    for p in function_paths(tm.node, loops=0):
+        cs = dict((U(s_[1]), s_[2]) for s_ in p if s_[0] == "cond")
+        if cs.get("bins.ndim == 1") is True and "bins.shape[0] > 1" in cs:
+            vals = [U(s_[1].value) for s_ in p if s_[0] == "stmt" and isinstance(s_[1], (ast.Assign, ast.AnnAssign)) and s_[1].value is not None
+                    and U(s_[1].targets[0] if isinstance(s_[1], ast.Assign) else s_[1].target) == "mask_"]
+            got1[cs["bins.shape[0] > 1"]] = vals[-1] if vals else None
+    ok1 = got1.get(True) == "np.arange(bins.shape[0] - 1)" and got1.get(False) == "[]"
+    ctx.check(ok1, rule, "to_numpy_bins_with_mask:edges-only", "plain edges: every interval 0 .. n-2 is a bin (when there is more than one edge)",
+              "numpy-style edges no longer map to the intervals 0 .. len(edges) - 2", tm.where)
     ctx.check(okinv, rule, "to_numpy_bins_with_mask:counter-invariant", "the running index grows by one per appended edge on every path",
               "the running mask index does not advance once per appended edge (it no longer equals the edge-interval number)", tm.where)
     ctx.check(okmask, rule, "to_numpy_bins_with_mask:mask-index", "each bin records the running edge-interval index (and the last bin after the loop)",
@@ -241,6 +267,7 @@ def run(ctx):
     wiring.params_used(ctx, "C02.e", wiring.funcs_of(m, "_facade", "_construction", only={"h", "h2", "h3", "calculate_nd_frequencies", "calculate_nd_bins",
                        "extract_nd_array", "extract_and_concat_arrays", "extract_weights"})
                        + [m.cls("HistogramND").methods[x] for x in ("__init__", "from_calculate_frequencies")], "h-chain:options-read")
+    wiring.nan_gate(ctx, "C02.e", h, "calculate_nd_bins", "h:nan-gate")
     wiring.discarded_mask(ctx, "C02.e", m, only=("_facade.h2", "_facade.h3", "_construction.extract_and_concat_arrays"), floor=1)
 
     # ---- C02.f forwarding ---------------------------------------------------------------------------------------------------
